@@ -77,7 +77,7 @@ class Norm:
             if d[0] == "sym":
                 if k[0] == "var" and self.keyvars.get(k) == d:
                     return ("valof", d, k)
-                if dflt == EMPTY:
+                if dflt == EMPTY or dflt == ("tuple", ()):
                     return ("getempty", d, k)
                 if dflt == NONE:
                     return ("getnone", d, k)
@@ -127,7 +127,7 @@ class Norm:
             if (a[0] in strong or b[0] in strong) and self.is_coll(a) and self.is_coll(b):
                 return self.bag(("ite", t[1], t[2], t[3]), sub)
             return ("ite", c, a, b)
-        if tag in ("coll", "wrap", "setop", "concat", "keys", "values", "items", "flatten", "enumerate", "splatted"):
+        if tag in ("coll", "wrap", "setop", "concat", "keys", "values", "items", "flatten", "enumerate", "splatted", "perm", "comb", "product", "groupby"):
             if tag == "wrap" and t[1] not in WRAPPERS:
                 self.opaque.append(f"wrapper {t[1]}")
             return self.bag(t, sub)
@@ -374,7 +374,7 @@ class Norm:
         chain = []
         while True:
             if t[0] == "wrap" and t[1] in WRAPPERS:
-                name, t = t[1], t[2]
+                name, t = t[1] + (":" + t[3] if len(t) > 3 else ""), t[2]
             elif t[0] == "coll" and t[1] in ("list", "set") and len(t[2]) == 1 and t[2][0][0] == "splat":
                 name, t = t[1], t[2][0][1]
             else:
@@ -382,7 +382,7 @@ class Norm:
             if name in ("list", "tuple", "iter"):
                 continue
             chain.append(name)
-            if name == "sorted":
+            if name.startswith("sorted"):
                 break
         return "/".join(chain)
 
@@ -415,6 +415,65 @@ class Norm:
         for e, f, cs in self.atomic(s1):
             out.append((e, f, cs + [c_not(self.eq(e, x))]))
         return out
+
+    # grouping -------------------------------------------------------------
+    @staticmethod
+    def component(elt, k):
+        if k == "self":
+            return elt
+        if elt[0] == "tuple" and isinstance(k, int) and 0 <= k < len(elt[1]):
+            return elt[1][k]
+        return ("index", elt, ("const", k))
+
+    def runs_by(self, raw, k, sub) -> bool:
+        """True when, in the sequence `raw` (a term of the evaluator, order still visible), elements with equal component k are
+        next to each other and come from ONE pass over a source of distinct values - so that itertools.groupby(raw, component k)
+        yields exactly one group per value."""
+        if raw[0] == "wrap" and raw[1] in ("list", "tuple", "iter"):
+            return self.runs_by(raw[2], k, sub)
+        if raw[0] == "wrap" and raw[1] == "sorted":
+            how = raw[3] if len(raw) > 3 else ""
+            how = how[:-3] if how.endswith("rev") else how
+            # sorted by that very component, or sorted as tuples (the first component leads)
+            return how == (f"key{k}" if k != "self" else "") or (how == "" and k == 0)
+        if raw[0] in ("perm", "comb", "product") and k == 0:
+            first = raw[1] if raw[0] != "product" else raw[1][0]
+            return self.distinct_source(self.as_source(self.N(first, sub)))
+        if raw[0] == "coll" and raw[1] in ("list", "iter") and len(raw[2]) == 1:
+            it = raw[2][0]
+            if it[0] == "splat":
+                return self.runs_by(it[1], k, sub)
+            if it[0] == "gen" and it[2] and it[2][0][0] == "for" and not (isinstance(it[1], tuple) and it[1] and it[1][0] == "splatted"):
+                _f, var, src, _loop = it[2][0]
+                key = self.component(it[1], k)
+                if key == var and self.distinct_source(self.as_source(self.N(src, sub))):
+                    return True  # outermost loop over distinct values; whatever is nested inside stays together
+                rest_are_filters = all(b[0] == "if" for b in it[2][1:])
+                if rest_are_filters:
+                    if key == var:
+                        return self.runs_by(src, "self", sub)
+                    if key[0] == "index" and key[1] == var and key[2][0] == "const":
+                        return self.runs_by(src, key[2][1], sub)  # a filter / a map that keeps the component
+        return False
+
+    def groups(self, t, sub):
+        """Generators of `groupby(X, key)`: one (key, group) per value of the key - when X has one generator whose outermost
+        variable is the key and `runs_by` holds."""
+        _t, raw, k = t
+        if k is None or not self.runs_by(raw, k, sub):
+            return None
+        gs = self.gens(raw, sub)
+        if len(gs) != 1:
+            return None
+        elt, fors, conds = gs[0]
+        if not fors or not self.distinct_source(fors[0][1]):
+            return None
+        outer = fors[0][0]
+        if self.component(elt, k) != outer:
+            return None
+        inner_fors = fors[1:]
+        group = ("bag", (("g", elt, tuple(inner_fors), self.simp(c_and(conds))),))
+        return [(("tuple", (outer, group)), (fors[0],), [self.truthy(group)])]
 
     def concat_parts(self, t) -> list:
         if t[0] == "concat":
@@ -537,6 +596,47 @@ class Norm:
                 for e2, f2, cs2 in self.gens_nf(e):
                     out.append((e2, f + f2, cs + cs2))
             return out
+        if tag == "perm":
+            # permutations(S, 2) of a sequence of distinct elements: the ordered pairs of different elements, first component outermost
+            src = self.as_source(self.N(t[1], sub))
+            if t[2] == 2 and self.distinct_source(src):
+                out = []
+                for e1, f1, c1 in self.gens(t[1], sub):
+                    for e2, f2, c2 in self.gens(t[1], sub):
+                        out.append((("tuple", (e1, e2)), f1 + f2, c1 + c2 + [c_not(self.eq(e1, e2))]))
+                return out
+            self.opaque.append("itertools.permutations of a sequence that may contain an element twice / of another length than 2")
+            return self.atomic(("opaque", "permutations", (src,)))
+        if tag == "comb":
+            # combinations(S, 2): the pairs whose first element comes earlier in S
+            src = self.as_source(self.N(t[1], sub))
+            seq = self.seq_tag(t[1])
+            if self.distinct_source(src):
+                out = []
+                for e1, f1, c1 in self.gens(t[1], sub):
+                    for e2, f2, c2 in self.gens(t[1], sub):
+                        if e1[0] != "var" or e2[0] != "var":
+                            break
+                        earlier = ("cmp", "<", ("idx", e1, seq, self.srcof.get(e1)), ("idx", e2, seq, self.srcof.get(e2)))
+                        out.append((("tuple", (e1, e2)), f1 + f2, c1 + c2 + [earlier]))
+                    else:
+                        continue
+                    break
+                else:
+                    return out
+            self.opaque.append("itertools.combinations of a sequence that may contain an element twice")
+            return self.atomic(("opaque", "combinations", (src,)))
+        if tag == "product":
+            out = [(("tuple", ()), (), [])]
+            for seq in t[1]:
+                out = [(("tuple", e[1] + (e2,)), f + f2, c + c2) for e, f, c in out for e2, f2, c2 in self.gens(seq, sub)]
+            return out
+        if tag == "groupby":
+            hit = self.groups(t, sub)
+            if hit is not None:
+                return hit
+            self.opaque.append("itertools.groupby over a sequence that is not known to keep equal keys together")
+            return self.atomic(("opaque", "groupby", (self.N(t[1], sub),)))  # the inputs stay visible: nothing is "lost"
         if tag == "enumerate":
             seq = self.seq_tag(t[1])
             return [(("tuple", (("idx", e, seq, self.srcof.get(e) if e[0] == "var" else None), e)), f, cs) for e, f, cs in self.gens(t[1], sub)]
@@ -684,6 +784,8 @@ class Norm:
             return self.truthy(n[1])
         if tag in ("getnone", "getempty"):
             return c_and([self.member(n[2], ("keys", n[1])), ("truthy", ("valof", n[1], n[2]))])
+        if tag == "join" and n[2][0] == "bag" and all(rooted_at_caught(g[1]) and g[1][0] != "caught" for g in n[2][1]):
+            return self.truthy(n[2])  # joined messages of violated rules (non-empty strings): empty iff there is none
         if tag in ("inst", "fluent", "stage", "exc"):
             return TRUE
         if rooted_at_caught(n) and n[0] != "caught":
